@@ -91,7 +91,7 @@ class Engine:
         s.m = module
         s.models = dict(BUILTIN_MODELS)
         if models: s.models.update(models)
-        s.solver = z3.Solver()
+        s.solver = z3.Solver(); s.sol_stack = []
         s.gaddr = {}        # global name -> address
         s.faddr = {}        # function name -> address ; reverse
         s.addr2f = {}
@@ -122,17 +122,26 @@ class Engine:
                     return True
             except z3.Z3Exception: pass
         t = time.time()
+        s.sync_solver(st)
         s.solver.push()
-        for c in st.pc: s.solver.add(c)
         s.solver.add(cond)
         r = s.solver.check()
         if r == z3.sat:
-            st.mdl_alt = s.solver.model()     # model of pc /\ cond: becomes the state's model if cond is added to pc next
-            st.mdl_alt_cond = cond
+            st.mdl_alt = s.solver.model(); st.mdl_alt_n = len(st.pc)    # model of pc /\ cond: becomes the state's model if cond is appended next
         s.solver.pop()
         s.stats['solver_calls'] += 1; s.stats['solver_time'] += time.time() - t
         if r == z3.unknown: raise Unsupported('solver unknown')
         return r == z3.sat
+    def sync_solver(s, st):
+        """keep the incremental solver's assertion stack equal to st.pc (one push level per constraint); states explored
+        depth-first share long prefixes, so most queries only push the new condition"""
+        stk = s.sol_stack; pc = st.pc
+        k = 0; n = min(len(stk), len(pc))
+        while k < n and stk[k] is pc[k]: k += 1
+        if len(stk) > k:
+            s.solver.pop(len(stk) - k); del stk[k:]
+        for c in pc[k:]:
+            s.solver.push(); s.solver.add(c); stk.append(c)
     def add_pc(s, st, cond):
         """append cond to the path condition (append-only per state), keeping a valid cached model when one is known"""
         keep = None
@@ -147,8 +156,8 @@ class Engine:
         else: st.mdl = None; st.mdl_n = -1
         st.mdl_alt = None; st.mdl_alt_n = -1
     def model(s, st, extra=None):
+        s.sync_solver(st)
         s.solver.push()
-        for c in st.pc: s.solver.add(c)
         if extra is not None: s.solver.add(extra)
         r = s.solver.check()
         mdl = s.solver.model() if r == z3.sat else None
@@ -749,7 +758,12 @@ class Engine:
             if c is UNDEF: raise Violation('select on uninitialised value')
             if is_sym(c):
                 bits = s.sizeof(ins.ty) * 8 if not (isinstance(s.res(ins.ty), TInt) and s.res(ins.ty).bits == 1) else 1
-                if a is UNDEF or b is UNDEF: raise Unsupported('select undef')
+                if a is UNDEF or b is UNDEF or isinstance(a, list) or isinstance(b, list):
+                    # one arm is uninitialised / aggregate: decide the condition (fork when both values are feasible)
+                    t1 = s.feasible(st, c == 1); t0 = s.feasible(st, c == 0)
+                    if t1 and t0: raise ForkOn(c == 1)
+                    fr.regs[R] = a if t1 else b
+                    return
                 fr.regs[R] = z3.simplify(z3.If(c == 1, s.bv(a, bits), s.bv(b, bits)))
             else:
                 fr.regs[R] = a if c & 1 else b
